@@ -116,10 +116,14 @@ def response_roots(a_hist, a_D, gamma):
 
 
 def max_root_modulus(a_hist, a_D, gammas):
+    """largest root modulus over the gamma grid.  Non-finite coefficients give (NaN, None) instead of an exception
+    or a silently dropped comparison, so that a caller judging `modulus <= 1 + tol` is violated by them."""
+    if not (np.all(np.isfinite(np.asarray(a_hist, float))) and np.isfinite(float(a_D))):
+        return float("nan"), None
     worst, at = 0.0, None
     for g in gammas:
         r = float(np.abs(response_roots(a_hist, a_D, g)).max())
-        if r > worst:
+        if r > worst or r != r:
             worst, at = r, float(g)
     return worst, at
 
